@@ -76,7 +76,8 @@ class RSync:
     def _list_done(self, channel: Channel) -> None:
         # sum up all to send
         if self._callback:
-            s = sum([self._paths[i] for i in self._to_send[channel]])
+            # a target that is up to date asks for nothing
+            s = sum([self._paths[i] for i in self._to_send.get(channel, ())])
             self._callback("list", s, channel)
 
     def _send_item(
